@@ -30,11 +30,13 @@ theorem C08_break_continue (env : Env) (f : Nat) (tn : String) (e : Esc) (c : Ct
 
 /-- **A callee without a parse tree is an analysis error, not a nil dereference.** -/
 theorem C08_nil_tree_is_error (env : Env) (f : Nat) (e : Esc) (c : Ctx) (name : String)
+    (hc : c.state ≠ .error)
     (hmemo : alookup e.output (mangle c name) = none)
     (ht : e.template env name = some none) :
     ∃ e', escapeTree env (f + 1) e c name = .ok (e', Ctx.errorCtx .noSuchTemplate, mangle c name) := by
   unfold escapeTree
-  simp only [hmemo]
+  have hce : (c.state == State.error) = false := by simpa using hc
+  simp only [hmemo, hce, Bool.false_eq_true, if_false]
   -- `called` and the classification bookkeeping are the only fields updated before the template lookup,
   -- and `Esc.template` reads `derived` only
   have key : ∀ e' : Esc, e'.derived = e.derived → Esc.template env e' name = some none := by
